@@ -1,5 +1,5 @@
 import JunoModel.C12.ProofsTrace
-import JunoModel.C13.ProofsReplay3
+import JunoModel.C13.UpTo
 /-!
 C13 — the abstract `Machine` instantiated with C12's executable transcription of juno's Tendermint
 state machine (`JunoModel.C12.Model`, compared action-for-action with the real code by C12's
@@ -216,5 +216,43 @@ theorem tm_noEquivocation (env : C12.Env) (node : Nat) : NoEquivocation (tmMachi
       (by simp [C12.pcSlot, hh, hr])
     simp only [C12.Action.bcastPrecommit.injEq, C12.Vote.mk.injEq] at this
     exact hid this.2.2.2
+
+/-! ## Witnesses on the transcription of juno's machine: what it does NOT satisfy -/
+
+/-- 4 equal validators, validator 1 proposes, every value valid; node 4. -/
+def env4 : C12.Env :=
+  { totalPower := fun _ => 4, power := fun _ _ => 1, proposer := fun _ _ => 1,
+    valid := fun _ => true, appValue := fun k => 100 + k }
+def tm4 : Machine C12.Machine := tmMachine env4 4
+def tmS0 : C12.Machine := (tm4.step (tm4.init 1) .start).1
+def tmS1 : C12.Machine := (tm4.step tmS0 (.precommit 3 0 1 (some 9))).1
+def tmS2 : C12.Machine := (tm4.step tmS1 (.precommit 3 0 2 (some 9))).1
+
+/-- (F4) The precommit that completes a quorum of a FUTURE height: the call returns only
+`TriggerSync` — no log entry — although the vote is counted (a second delivery is a duplicate). -/
+theorem tm_future_quorum_precommit_not_logged :
+    (tm4.step tmS2 (.precommit 3 0 3 (some 9))).2 = [Action.triggerSync 1 3] ∧
+    (tm4.step (tm4.step tmS2 (.precommit 3 0 3 (some 9))).1 (.precommit 3 0 3 (some 9))).2 = [] := by
+  decide
+
+/-- Hence the machine (as it is in /repo today) satisfies the hypotheses for NO notion of state
+equivalence: an accepted input with actions that is not logged. -/
+theorem tm_not_replaySafe_upTo (r : Setoid C12.Machine) : ¬ ReplaySafeUpTo tm4 r := fun hs => by
+  have h := hs.logged_or_inert tmS2 (.precommit 3 0 3 (some 9)) (Or.inl (by decide))
+  have ha := tm_future_quorum_precommit_not_logged.1
+  rcases h with ⟨_, h2⟩ | ⟨e', rest, h2, _⟩ <;> (rw [ha] at h2; cases h2)
+
+/-- Why state EQUALITY is the wrong notion (and `ReplaySafeUpTo` has `≈`): a proposal from a
+non-proposer is rejected (no actions), yet the vote counter has a new, empty round entry. -/
+theorem tm_rejected_input_changes_state_literally :
+    (tm4.step tmS0 (.proposal 1 5 2 (-1) 9)).2 = [] ∧
+    (tm4.step tmS0 (.proposal 1 5 2 (-1) 9)).1.vc.rounds.length = 1 ∧ tmS0.vc.rounds.length = 0 := by
+  decide
+
+/-- Why `unstarted_silent` is about messages only: `ProcessTimeout` does not look at
+`isHeightStarted` (C12's `timeout_before_start_breaks_one_vote`); `listen` and `ReplayOK` never
+deliver a timeout to an unstarted height. -/
+theorem tm_timeout_before_start_is_not_silent :
+    visA (tm4.step (tm4.init 1) (.timeout 0 1 0)).2 ≠ [] := by decide
 
 end Juno.C13
